@@ -277,6 +277,17 @@ Example ignore_errors_example :
         Some (Some EUnknownArgument); Some (Some EInvalidSubcommand); Some (Some EInvalidValue)].
 Proof. repeat split; vm_compute; reflexivity. Qed.
 
+(** observation (model = crate, corpus/C01/parse-ignore-errors.round5.cases): under error-ignoring a help / version request
+    INSIDE a subcommand is swallowed too -- [parse_subcommand] drops every error of the child level under partial parsing,
+    whatever its kind; only a request at the root level ends the parse.  The property allows it ("except"). *)
+Example ignore_errors_swallows_help_in_subcommand :
+  outcome_kind (parse_top ign_cmd [[112]; [45; 83; 104]]) = Some None                                  (* p -Sh *)
+  /\ outcome_kind (parse_top ign_cmd [[112]; [115]; [45; 45; 104; 101; 108; 112]]) = Some None         (* p s --help *)
+  /\ outcome_kind (parse_top (ign_cmd <| c_gset := settings_none |>) [[112]; [45; 83; 104]]) = Some (Some EDisplayHelp)
+  /\ outcome_kind (parse_top (ign_cmd <| c_gset := settings_none |>) [[112]; [115]; [45; 45; 104; 101; 108; 112]])
+     = Some (Some EDisplayHelp).
+Proof. repeat split; vm_compute; reflexivity. Qed.
+
 (** * every definition the gate accepts (FsAny.v): the entry point *)
 Lemma unbuilt_bin_name c0 b : unbuilt (c0 <| c_bin_name := b |>) = unbuilt c0.
 Proof. apply unbuilt_frame; destruct c0; reflexivity. Qed.
